@@ -42,7 +42,10 @@ let kind_of (s : Stdlib.String.t) : opk =
   | ["dy"; f] -> KDecompressYUV (b f.[0])
   | ["uy"; f] -> KDecodeYUV (b f.[0])
   | ["gi"] -> KGetICC | ["tb"] -> KTransformBufSize
-  | ["t"; f] -> KTransform (b f.[0])
+  | ["t"; f] -> KTransform (b f.[0], b f.[1])
+  | ["lc"] -> KLegacyCompress
+  | ["ld"; f] -> KLegacyDecompress (b f.[0], b f.[1])
+  | ["lt"; f] -> KLegacyTransform (b f.[0])
   | _ -> failwith ("unknown kind " ^ s)
 
 let parse_call (s : Stdlib.String.t) : call =
@@ -77,7 +80,8 @@ let dump ic id (x : xstate) : Stdlib.String.t =
             (geti s (fD "mem->image_space_small")) (geti s (fD "mem->image_space_large")) in
   let k = Printf.sprintf "k:%d,%d" (if s.pt (fD "marker->dummy_methods") <> None then 0 else 1)
             (if s.pt (fD "inputctl->dummy_start_input_pass") <> None then 0 else 1) in
-  c ^ " " ^ d ^ " " ^ m ^ " " ^ k ^ " p:" ^ String.concat "," (List.map (fun f -> string_of_int (geti s f)) pfields)
+  let sv = Printf.sprintf "s:%d,%d,%d" (geti s (fD "marker->save_COM")) (geti s (fD "marker->save_APP2")) (geti s (fD "marker->save_APPn")) in
+  c ^ " " ^ d ^ " " ^ m ^ " " ^ k ^ " " ^ sv ^ " p:" ^ String.concat "," (List.map (fun f -> string_of_int (geti s f)) pfields)
 
 let okh_cache : (Stdlib.String.t, bool) Hashtbl.t = Hashtbl.create 64
 let okh k kname = match Hashtbl.find_opt okh_cache kname with Some b -> b | None -> let b = ok_hist faithful k in Hashtbl.add okh_cache kname b; b
